@@ -1,8 +1,18 @@
-// effects: static over-approximation of writes to memory that may be shared (reachable from
-// a parameter, receiver, free variable or global), per function, and the set of such sites
-// reachable from every exported method through the module's static call graph.
-// Output: coq/Gen/Effects.v.  Sites are keyed by function + kind + ordinal (not by line), so
-// harmless edits elsewhere in a file do not change the keys.
+// effects: static over-approximation of writes to memory that may be shared between goroutines,
+// per function, and the set of such sites reachable from every exported method through the
+// module's static call graph.  Output: coq/Gen/Effects.v.
+//
+// A write site (Store, MapUpdate, append, copy, delete/clear, sort.*) is classified by where its
+// destination may come from (flow-insensitive derivation through field/index/slice/conversion/phi,
+// results of in-module calls from their arguments):
+//   - a global or a captured variable of a closure whose binding is shared: unconditional;
+//   - a parameter (the receiver is parameter 0) of the enclosing function: conditional on that
+//     parameter — it becomes a site of a caller only when the caller passes something that is
+//     itself derived from the caller's parameters / globals (a helper filling a buffer its caller
+//     has just allocated writes nothing shared);
+//   - a fresh allocation of the function itself: not a site.
+// For an exported method every parameter (receiver included) counts as shared.  Sites are keyed by
+// function + kind + ordinal (not by line), so edits elsewhere in a file do not change the keys.
 package main
 
 import (
@@ -20,72 +30,96 @@ import (
 
 const mod = "github.com/go-i2p/common"
 
-func derived(v ssa.Value, seen map[ssa.Value]bool) bool {
+// roots of a value: parameter indices (>= 0; free variables follow the parameters), or shared (-1)
+type rootset map[int]bool
+
+const shared = -1
+
+func (r rootset) add(o rootset) {
+	for k := range o {
+		r[k] = true
+	}
+}
+
+func rootsOf(f *ssa.Function, v ssa.Value, seen map[ssa.Value]bool) rootset {
+	res := rootset{}
 	if seen[v] {
-		return false
+		return res
 	}
 	seen[v] = true
 	switch x := v.(type) {
-	case *ssa.Parameter, *ssa.Global, *ssa.FreeVar:
-		return true
+	case *ssa.Parameter:
+		for i, p := range f.Params {
+			if p == x {
+				res[i] = true
+			}
+		}
+		if len(res) == 0 {
+			res[shared] = true // a parameter of an enclosing function seen from a closure: treat as shared
+		}
+	case *ssa.Global:
+		res[shared] = true
+	case *ssa.FreeVar:
+		for i, fv := range f.FreeVars {
+			if fv == x {
+				res[len(f.Params)+i] = true
+			}
+		}
+		if len(res) == 0 {
+			res[shared] = true
+		}
 	case *ssa.Alloc:
 		for _, r := range *x.Referrers() {
-			if st, ok := r.(*ssa.Store); ok && st.Addr == x && derived(st.Val, seen) {
-				return true
+			if st, ok := r.(*ssa.Store); ok && st.Addr == x {
+				res.add(rootsOf(f, st.Val, seen))
 			}
 		}
-		return false
 	case *ssa.FieldAddr:
-		return derived(x.X, seen)
+		res.add(rootsOf(f, x.X, seen))
 	case *ssa.Field:
-		return derived(x.X, seen)
+		res.add(rootsOf(f, x.X, seen))
 	case *ssa.IndexAddr:
-		return derived(x.X, seen)
+		res.add(rootsOf(f, x.X, seen))
 	case *ssa.Index:
-		return derived(x.X, seen)
+		res.add(rootsOf(f, x.X, seen))
 	case *ssa.Slice:
-		return derived(x.X, seen)
+		res.add(rootsOf(f, x.X, seen))
 	case *ssa.UnOp:
-		return derived(x.X, seen)
+		res.add(rootsOf(f, x.X, seen))
 	case *ssa.ChangeType:
-		return derived(x.X, seen)
+		res.add(rootsOf(f, x.X, seen))
 	case *ssa.Convert:
 		if b, ok := x.X.Type().Underlying().(*types.Basic); ok && b.Info()&types.IsString != 0 {
-			return false // string -> []byte allocates
+			return res // string -> []byte allocates
 		}
-		return derived(x.X, seen)
+		res.add(rootsOf(f, x.X, seen))
 	case *ssa.MakeInterface:
-		return derived(x.X, seen)
+		res.add(rootsOf(f, x.X, seen))
 	case *ssa.TypeAssert:
-		return derived(x.X, seen)
+		res.add(rootsOf(f, x.X, seen))
 	case *ssa.Extract:
-		return derived(x.Tuple, seen)
+		res.add(rootsOf(f, x.Tuple, seen))
 	case *ssa.Phi:
 		for _, e := range x.Edges {
-			if derived(e, seen) {
-				return true
-			}
+			res.add(rootsOf(f, e, seen))
 		}
-		return false
 	case *ssa.Call:
 		if !pointerish(x.Type()) {
-			return false
+			return res
 		}
 		if b, ok := x.Call.Value.(*ssa.Builtin); ok && b.Name() == "append" {
-			return derived(x.Call.Args[0], seen)
+			res.add(rootsOf(f, x.Call.Args[0], seen))
+			return res
 		}
 		callee := x.Call.StaticCallee()
 		if callee == nil || callee.Pkg == nil || !strings.HasPrefix(callee.Pkg.Pkg.Path(), mod) {
-			return false // external callee: result assumed fresh (see DESIGN.md, trusted base)
+			return res // external callee: result assumed fresh (see DESIGN.md, trusted base)
 		}
 		for _, a := range x.Call.Args {
-			if derived(a, seen) {
-				return true
-			}
+			res.add(rootsOf(f, a, seen))
 		}
-		return false
 	}
-	return false
+	return res
 }
 
 func pointerish(t types.Type) bool {
@@ -115,6 +149,19 @@ func short(f *ssa.Function) string {
 	return s
 }
 
+// a call (or closure creation) inside a function: callee and, per callee parameter / free
+// variable, the roots of the actual argument in the caller
+type callEdge struct {
+	callee *ssa.Function
+	args   []rootset // indexed like the callee's roots: params, then free variables
+}
+
+type summary struct {
+	cond   map[int]map[string]bool // parameter index -> sites written through it
+	uncond map[string]bool         // sites written whatever the caller passes
+	calls  []callEdge
+}
+
 func main() {
 	repo := flag.String("repo", "/repo", "repository root")
 	out := flag.String("out", "", "output file (Effects.v)")
@@ -136,26 +183,49 @@ func main() {
 	inMod := func(f *ssa.Function) bool {
 		return f != nil && f.Pkg != nil && strings.HasPrefix(f.Pkg.Pkg.Path(), mod) && !strings.Contains(f.Pkg.Pkg.Path(), "/fuzz/")
 	}
-	sitesOf := map[*ssa.Function][]string{}
-	calls := map[*ssa.Function][]*ssa.Function{}
 	var fns []*ssa.Function
 	for f := range ssautil.AllFunctions(prog) {
-		if !inMod(f) || f.Synthetic != "" && !strings.HasPrefix(f.Synthetic, "wrapper") && !strings.HasPrefix(f.Synthetic, "bound") {
-			if !inMod(f) {
-				continue
-			}
+		if !inMod(f) {
+			continue
 		}
 		fns = append(fns, f)
 	}
 	sort.Slice(fns, func(i, j int) bool { return fns[i].String() < fns[j].String() })
+	sums := map[*ssa.Function]*summary{}
 	for _, f := range fns {
+		sm := &summary{cond: map[int]map[string]bool{}, uncond: map[string]bool{}}
+		sums[f] = sm
 		count := map[string]int{}
-		add := func(kind string) {
-			sitesOf[f] = append(sitesOf[f], fmt.Sprintf("%s#%s#%d", short(f), kind, count[kind]))
+		add := func(kind string, rs rootset) {
+			if len(rs) == 0 {
+				return
+			}
+			id := fmt.Sprintf("%s#%s#%d", short(f), kind, count[kind])
 			count[kind]++
+			for r := range rs {
+				if r == shared {
+					sm.uncond[id] = true
+				} else {
+					if sm.cond[r] == nil {
+						sm.cond[r] = map[string]bool{}
+					}
+					sm.cond[r][id] = true
+				}
+			}
 		}
-		for _, af := range f.AnonFuncs {
-			calls[f] = append(calls[f], af)
+		roots := func(v ssa.Value) rootset { return rootsOf(f, v, map[ssa.Value]bool{}) }
+		edge := func(callee *ssa.Function, actuals []ssa.Value, bindings []ssa.Value) {
+			e := callEdge{callee: callee}
+			for _, a := range actuals {
+				e.args = append(e.args, roots(a))
+			}
+			for len(e.args) < len(callee.Params) {
+				e.args = append(e.args, rootset{shared: true})
+			}
+			for _, b := range bindings {
+				e.args = append(e.args, roots(b))
+			}
+			sm.calls = append(sm.calls, e)
 		}
 		for _, b := range f.Blocks {
 			for _, in := range b.Instrs {
@@ -164,75 +234,107 @@ func main() {
 					if _, isAlloc := x.Addr.(*ssa.Alloc); isAlloc {
 						continue
 					}
-					if derived(x.Addr, map[ssa.Value]bool{}) {
-						add("store")
-					}
+					add("store", roots(x.Addr))
 				case *ssa.MapUpdate:
-					if derived(x.Map, map[ssa.Value]bool{}) {
-						add("mapupdate")
+					add("mapupdate", roots(x.Map))
+				case *ssa.MakeClosure:
+					if fn, ok := x.Fn.(*ssa.Function); ok && inMod(fn) {
+						// the closure may be called by whoever receives it: its parameters are unknown
+						// (shared), its captured variables are the bindings
+						var unknown []ssa.Value
+						e := callEdge{callee: fn}
+						_ = unknown
+						for range fn.Params {
+							e.args = append(e.args, rootset{shared: true})
+						}
+						for _, bnd := range x.Bindings {
+							e.args = append(e.args, roots(bnd))
+						}
+						sm.calls = append(sm.calls, e)
 					}
 				case ssa.CallInstruction:
 					cc := x.Common()
 					if bi, ok := cc.Value.(*ssa.Builtin); ok {
 						switch bi.Name() {
-						case "append":
-							if derived(cc.Args[0], map[ssa.Value]bool{}) {
-								add("append")
-							}
-						case "copy":
-							if derived(cc.Args[0], map[ssa.Value]bool{}) {
-								add("copy")
-							}
-						case "delete", "clear":
-							if derived(cc.Args[0], map[ssa.Value]bool{}) {
-								add(bi.Name())
-							}
+						case "append", "copy", "delete", "clear":
+							add(bi.Name(), roots(cc.Args[0]))
 						}
 						continue
 					}
 					callee := cc.StaticCallee()
 					if callee != nil && callee.Pkg != nil && (callee.Pkg.Pkg.Path() == "sort" || callee.Pkg.Pkg.Path() == "slices") {
+						rs := rootset{}
 						for _, a := range cc.Args {
-							if derived(a, map[ssa.Value]bool{}) {
-								add("sort")
-								break
-							}
+							rs.add(roots(a))
 						}
+						add("sort", rs)
 					}
 					if inMod(callee) {
-						calls[f] = append(calls[f], callee)
+						if _, isClosure := cc.Value.(*ssa.MakeClosure); isClosure {
+							continue // handled at the MakeClosure instruction
+						}
+						edge(callee, cc.Args, nil)
 					}
-					if mc, ok := cc.Value.(*ssa.MakeClosure); ok {
-						if fn, ok := mc.Fn.(*ssa.Function); ok && inMod(fn) {
-							calls[f] = append(calls[f], fn)
+				}
+			}
+		}
+		// anonymous functions that are never the operand of a MakeClosure here (no captured variables)
+		for _, af := range f.AnonFuncs {
+			if len(af.FreeVars) == 0 {
+				e := callEdge{callee: af}
+				for range af.Params {
+					e.args = append(e.args, rootset{shared: true})
+				}
+				sm.calls = append(sm.calls, e)
+			}
+		}
+	}
+	// propagate to a fixpoint: a callee's sites conditional on parameter j become, in the caller,
+	// sites conditional on the roots of the j-th actual argument (or unconditional when shared)
+	for changed := true; changed; {
+		changed = false
+		for _, f := range fns {
+			sm := sums[f]
+			for _, e := range sm.calls {
+				cs := sums[e.callee]
+				if cs == nil {
+					continue
+				}
+				for id := range cs.uncond {
+					if !sm.uncond[id] {
+						sm.uncond[id] = true
+						changed = true
+					}
+				}
+				for j, sites := range cs.cond {
+					if j >= len(e.args) {
+						continue
+					}
+					for r := range e.args[j] {
+						for id := range sites {
+							if r == shared {
+								if !sm.uncond[id] {
+									sm.uncond[id] = true
+									changed = true
+								}
+							} else {
+								if sm.cond[r] == nil {
+									sm.cond[r] = map[string]bool{}
+								}
+								if !sm.cond[r][id] {
+									sm.cond[r][id] = true
+									changed = true
+								}
+							}
 						}
 					}
 				}
 			}
 		}
 	}
-	// reachable sites per exported method / function
-	reach := func(root *ssa.Function) []string {
-		seen := map[*ssa.Function]bool{}
-		var res []string
-		var walk func(f *ssa.Function)
-		walk = func(f *ssa.Function) {
-			if seen[f] {
-				return
-			}
-			seen[f] = true
-			res = append(res, sitesOf[f]...)
-			for _, c := range calls[f] {
-				walk(c)
-			}
-		}
-		walk(root)
-		sort.Strings(res)
-		return res
-	}
 	var sb strings.Builder
 	sb.WriteString("(* GENERATED by /verif/translator/effects from the Go source (go/ssa); do not edit. *)\nFrom Coq Require Import List String.\nImport ListNotations.\nOpen Scope string_scope.\n\n")
-	sb.WriteString("(* every exported method of an exported type, with the potential shared-write sites\n   (function#kind#ordinal) reachable from it through the module's static call graph *)\nDefinition method_effects : list (string * list string) := [\n")
+	sb.WriteString("(* every exported method of an exported type, with the potential shared-write sites\n   (function#kind#ordinal) it can reach through the module's static call graph: sites whose\n   destination may derive from a global, or from a parameter chain that starts at the method's\n   receiver or arguments *)\nDefinition method_effects : list (string * list string) := [\n")
 	var rows []string
 	for _, f := range fns {
 		if f.Signature.Recv() == nil || f.Synthetic != "" {
@@ -250,8 +352,22 @@ func main() {
 		if !ok || !named.Obj().Exported() {
 			continue
 		}
+		set := map[string]bool{}
+		for id := range sums[f].uncond {
+			set[id] = true
+		}
+		for _, sites := range sums[f].cond {
+			for id := range sites {
+				set[id] = true
+			}
+		}
+		var ids []string
+		for id := range set {
+			ids = append(ids, id)
+		}
+		sort.Strings(ids)
 		var qs []string
-		for _, s := range reach(f) {
+		for _, s := range ids {
 			qs = append(qs, fmt.Sprintf("%q", s))
 		}
 		rows = append(rows, fmt.Sprintf("  (%q, [%s])", short(f), strings.Join(qs, "; ")))
